@@ -81,7 +81,8 @@ def _index_terms(exprs, limit=6000):
         if z3.is_quantifier(e):
             stack.append(e.body())
             continue
-        if z3.is_app(e) and e.decl().kind() in (z3.Z3_OP_SEQ_NTH, z3.Z3_OP_SEQ_AT) and e.num_args() == 2:
+        if z3.is_app(e) and e.num_args() == 2 and (e.decl().kind() in (z3.Z3_OP_SEQ_NTH, z3.Z3_OP_SEQ_AT) or
+                                                   e.decl().name() in ("seq.nth_i", "seq.nth_u")):   # nth after simplify()
             t = e.arg(1)
             if not _has_var(t) and not z3.is_int_value(t):
                 out.append(t)
@@ -208,6 +209,21 @@ def _check_one(pc, insts, goal, timeout_ms, use_cvc5, cross=False):
     h = None
     smt2 = None
     short = min(3000, timeout_ms)
+    # first a quantifier-free attempt: the ground hypotheses and the generated instances only (fewer
+    # hypotheses, so 'unsat' is sound); quantified hypotheses often send the solver into 'unknown'
+    # although the instances already at hand suffice
+    if not _has_quant(goal) and any(_has_quant(p) for p in pc):
+        s0 = z3.Solver()
+        s0.set("timeout", short)
+        for p in pc:
+            if not _has_quant(p):
+                s0.add(p)
+        for i in insts:
+            if not _has_quant(i):
+                s0.add(i)
+        s0.add(z3.Not(goal))
+        if guarded_check(s0, short) == z3.unsat:
+            return "discharged", "z3", None, None, hashlib.sha256(s0.sexpr().encode()).hexdigest()[:16]
     schedule = [(0, short), (7, short), (13, short), (29, timeout_ms)]
     for k, (seed, tmo) in enumerate(schedule):
         s = z3.Solver()
